@@ -449,7 +449,7 @@ def run(model, rep, tier):
     check_exact_pruning(model, rep)
     rep.rule('R13.9', 'every name loaded in function.py resolves (symtable)')
     from rules import names as _names
-    _names.check(model, rep, 'R13.9', ('function',), 400)
+    _names.check(model, rep, 'R13.9', ('function',), 280)
     rep.require('R13.2', 13)
     rep.require('R13.3', 4)
     rep.require('R13.4', 2)
